@@ -23,11 +23,23 @@ SERVER = {"sift_steps2": ms(2, 3, 2), "sift_steps3": ms(3, 3)}
 CLIENT = {"cift_steps2": mc(2, 3, 2), "cift_steps3": mc(3, 3),
           "cift_routing_out_of_order": {"desc": "two calls outstanding (distinct symbolic ids): a reply for an id never issued is ignored; the second call's reply completes only the second call; a duplicate of it is ignored; then the first call's reply completes the first; table and timers end empty",
                                         "symbolic": ["three distinct u64 ids", "three u32 bodies"], "bounds": "2 inserts + 4 replies, unwind 4", "covers": 2}}
-EXEC = {"exec_dropped_without_execute": {"desc": "the application drops an InFlightRequest without executing it: exactly one cancellation carrying that request's own id reaches the channel's cancellation queue (so the channel releases the table entry and timer), and no response is buffered",
-                                         "symbolic": ["request id (u64)", "handler body (u32, unused on this path)"], "bounds": "one request, one drop; unwind 5", "covers": 4, "min_covers_sat": 1}}
-FUNCS_E = ["tarpc::server::ResponseGuard::drop + drop glue of tarpc::server::InFlightRequest<u32, u32>", "tarpc::cancellations::{cancellations, RequestCancellation::cancel, CanceledRequests::poll_recv}"]
-ASSUMPTIONS_E = ["handler-side harness is a child module of `server` in the scratch copy; under cfg(kani) only, tokio's mpsc in server.rs / cancellations.rs is the waker-less array model (native replay: real tokio channels)",
-                 "InFlightRequest::execute itself (Abortable + Instrumented + the handler future) was encoded too (overlay/tarpc_overlay_exec.rs: dropped after k polls, completes, aborted) but no execute harness finishes within 15 min; they are present in the overlay, not registered, and nothing is claimed about execute"]
+def me(desc, bounds):
+    return {"desc": desc, "symbolic": ["request id (u64)", "handler's answer (u32)"], "bounds": bounds + "; unwind 5", "covers": 7, "min_covers_sat": 1}
+_AB = "the application abandons the request: exactly one cancellation carrying that request's own id reaches the channel's cancellation queue (so the channel releases the table entry and timer), and no response is buffered"
+EXEC = {
+    "exec_dropped_without_execute": me("InFlightRequest dropped without execute — " + _AB, "one request, one drop"),
+    "exec_dropped_after_first_poll": me("execute future polled once (handler pending), then dropped — " + _AB, "handler pending for 2 polls, 1 poll of execute"),
+    "exec_dropped_after_second_poll": me("execute future polled twice (handler still pending), then dropped — " + _AB, "handler pending for 2 polls, 2 polls of execute"),
+    "exec_completes_at_once": me("handler ready at the first poll: execute finishes, exactly one response with this request's id and the handler's answer is buffered for the channel, and NO cancellation is queued", "1 poll"),
+    "exec_completes_after_pending": me("handler pending once, then ready: as above after 2 polls", "<= 3 polls"),
+    "exec_aborted_before_start": me("the channel aborts the handler (Cancel / expiry path) before the first poll: execute finishes at once, the handler is never polled, no response, no cancellation", "abort before poll 1"),
+    "exec_aborted_while_pending": me("the channel aborts the handler between polls: the handler makes no further progress, execute finishes, no response, no cancellation", "handler pending for 2 polls, abort before poll 2"),
+}
+FUNCS_E = ["tarpc::server::InFlightRequest::<u32, u32>::execute (with futures::future::Abortable and tracing::Instrumented around the handler) and its drop glue at every suspension point",
+           "tarpc::server::ResponseGuard::drop", "tarpc::cancellations::{cancellations, RequestCancellation::cancel, CanceledRequests::poll_recv}"]
+ASSUMPTIONS_E = ["handler-side harnesses are a child module of `server` in the scratch copy; under cfg(kani) only, tokio's mpsc in server.rs (response buffer) / cancellations.rs is the waker-less array model, whose send never has to wait (a full response buffer is outside the claim); the native replay runs against the real tokio channels",
+                 "stubs (handler side): futures AtomicWaker::{register, wake} -> no-op (wake-ups are not the subject), tracing Span::{log, record_all} -> no-op (the `log` fallback formats a line per span event; with it every execute harness times out), plus the stubs of the table harnesses",
+                 "the handler is a harness future (Pending k times, then a symbolic answer); handlers that fail, a full response buffer, and WHAT the channel does with the cancellation it receives are outside the claim"]
 FUNCS_S = ["tarpc::server::in_flight_requests::InFlightRequests::{start_request, cancel_request, remove_request, poll_expired, len}"]
 FUNCS_C = ["tarpc::client::in_flight_requests::InFlightRequests::<u32>::{insert_request, complete_request, cancel_request, poll_expired, complete_all_requests, len, is_empty}"]
 ASSUMPTIONS = [
@@ -55,7 +67,7 @@ def run_tables(pid, tier, s, server=None, client=None, timeout_s=3000, harness_t
     return recs, viol, known, inc, wall
 
 
-def run_exec(pid, tier, s, timeout_s=1500, harness_timeout=600):
+def run_exec(pid, tier, s, timeout_s=2400, harness_timeout=900):
     """Handler side (ResponseGuard): injects the exec overlay and decides its registered harness."""
     inject_exec_overlay(s)
     return kprop.decide(pid, tier, s, "overlay-exec", dict(EXEC), cwd=os.path.join(s.repo, "tarpc"), timeout_s=timeout_s, harness_timeout=harness_timeout,
